@@ -270,6 +270,9 @@ func (E *Engine) applyContract(m *Machine, f *Frame, x *ssa.Call, fn *ssa.Functi
 	}
 	pev := &Evaluator{E: E, M: m, Names: names, Old: old, Lets: ev.Lets, Results: res}
 	for _, en := range c.Ensures {
+		if E.knownFailing(name + ":post:" + en.Label) {
+			continue // a recorded finding: callers must not rely on it
+		}
 		m.AssumeT(pev.EvalBool(en.Expr, en.Src))
 	}
 	if c.Trusted {
@@ -318,4 +321,16 @@ func (E *Engine) buildQuery(r Reading, hyps []*Term, goal *Term) string {
 	b.WriteString(goal.S)
 	b.WriteString("))\n(check-sat)\n")
 	return b.String()
+}
+
+func (E *Engine) knownFailing(obl string) bool {
+	if E.knownSet == nil {
+		E.knownSet = map[string]bool{}
+		for _, k := range loadKnown() {
+			if k.Status == "known" {
+				E.knownSet[k.Obligation] = true
+			}
+		}
+	}
+	return E.knownSet[obl]
 }
